@@ -334,14 +334,14 @@ def run(ctx):
     hooks = Hooks(ctx)
     hooks.install_plan_hook()
     hooks.install_lru_hooks()
-    for _, rng in ctx.cases("families", ctx.n(160, 3000)):
+    for _, rng in ctx.cases("families", ctx.budget(640, 12000)):
         ctx.run_case(monitor1, ctx, hooks, rng)
-    for idx, rng in ctx.cases("differential", ctx.n(16, 200)):
+    for idx, rng in ctx.cases("differential", ctx.budget(32, 400)):
         cold = ctx.run_case(monitor2, ctx, hooks, 1000 + idx, 40)
         if cold is not None and idx % ctx.nshards == ctx.shard and idx < ctx.nshards * ctx.n(1, 4):
             ctx.run_case(monitor2_subprocess, ctx, 1000 + idx, 40, cold)
     hooks.set_cache(maxsize=8192, maxsectors=512, clear=True)
-    for _, rng in ctx.cases("mode-context", ctx.n(400, 8000)):
+    for _, rng in ctx.cases("mode-context", ctx.budget(3000, 60000)):
         ctx.run_case(monitor3, ctx, hooks, rng)
     hooks.uninstall()
     # threads: without the comparison hooks (they are not thread-aware); the oracle is the
@@ -349,7 +349,7 @@ def run(ctx):
     hooks2 = Hooks(ctx)
     old_timeout = ctx.case_timeout
     ctx.case_timeout = 600
-    for idx, rng in ctx.cases("threads", ctx.n(8, 64)):
+    for idx, rng in ctx.cases("threads", ctx.budget(16, 160)):
         nthreads = rng.choice([4, 8, 16])
         ctx.run_case(monitor4, ctx, hooks2, 5000 + idx, nthreads, ctx.n(24, 40), ctx.n(2, 4))
     ctx.case_timeout = old_timeout
